@@ -18,6 +18,16 @@ def outermost() -> bool:
     return _depth == 1
 
 
+ERRORS = []  # failures of monitor code itself (reported as INCONCLUSIVE by the worker)
+
+
+def _monitor_error(name, phase, exc):
+    import traceback
+    if len(ERRORS) < 20:
+        ERRORS.append('monitor %s.%s raised %s: %s' % (name, phase, type(exc).__name__,
+                                                       ''.join(traceback.format_exception(exc))[-700:]))
+
+
 def attach(owner, name, *, pre=None, post=None, on_raise=None, static=False, counter=None):
     """Wrap owner.name.  pre(args, kwargs) -> state (called only at the outermost
     boundary if `pre` has attribute outer_only=True, see `boundary`).  post(state,
@@ -37,16 +47,27 @@ def attach(owner, name, *, pre=None, post=None, on_raise=None, static=False, cou
             if counter is not None:
                 counter['calls'] = counter.get('calls', 0) + 1
             state = None
+            pre_ok = True
             if pre is not None and (outer or not getattr(pre, 'outer_only', False)):
-                state = pre(args, kwargs)
+                try:
+                    state = pre(args, kwargs)
+                except Exception as me:  # the monitor's own failure must neither leak into the program nor pass as "held"
+                    _monitor_error(name, 'pre', me)
+                    pre_ok = False
             try:
                 result = fn(*args, **kwargs)
             except BaseException as e:
-                if on_raise is not None and outer:
-                    on_raise(state, args, kwargs, e)
+                if on_raise is not None and outer and pre_ok:
+                    try:
+                        on_raise(state, args, kwargs, e)
+                    except Exception as me:
+                        _monitor_error(name, 'on_raise', me)
                 raise
-            if post is not None and (outer or not getattr(post, 'outer_only', False)):
-                post(state, args, kwargs, result)
+            if post is not None and pre_ok and (outer or not getattr(post, 'outer_only', False)):
+                try:
+                    post(state, args, kwargs, result)
+                except Exception as me:
+                    _monitor_error(name, 'post', me)
             return result
         finally:
             _depth -= 1
